@@ -68,6 +68,7 @@ def evidence(ctx, r, rule):
     ctx.coverage["cases"] = r["cases"]
     ctx.coverage["agreeing_cases"] = r["agree"]
     ctx.coverage["skipped"] = {"vm stack/heap limit reached": r["limits"],
+                               "not run: batch time budget exhausted (only when many programs time out)": r["notrun"],
                                "dropped by the generator (evaluator time limit / fuel)": sum(
                                    v for d in r["distribution"].values() for k, v in d["outcomes"].items() if k.startswith("dropped."))}
     ctx.coverage["partial"] = ("the evaluator is a theorem-backed oracle only for the proved stages of compile_correct; "
